@@ -271,3 +271,31 @@ def gen_session_profile(seed, nsessions=6, nsteps=40, threads=0, mismatch=0.0, l
                         b2.update(ct=E("out", i, "ct"), tag=E("out", i, "tag"), aad=aad)
                     s.add("single_shot_open", b2, suite=rsuite, mode=rmode, form=form, thread=th())
     return s
+
+
+def gen_lengths_profile(seed, upto=300):
+    """one real session (random suite / mode), messages of EVERY plaintext length 0..upto (aad length upto - i),
+    alternating forms, delivered in order"""
+    s = Script(seed)
+    r = s.rnd
+    kem, kdf, aead = r.choice([32, 16, 17, 18]), r.choice([1, 2, 3]), r.choice([1, 2, 3])
+    suite = [kem, kdf, aead]
+    kr = s.add("derive_keypair", {"ikm": s.fresh(NSK[kem], "ikm")}, kem=kem)
+    info = s.fresh(r.randrange(0, 70), "info")
+    i_s = s.add("setup_s", {"pk_r": E("out", kr, "pk"), "info": info, "rng": s.fresh(NSK[kem], "rng")}, ctx="s", suite=suite, mode=0)
+    s.add("setup_r", {"sk_r": E("out", kr, "sk"), "info": info, "enc": E("out", i_s, "enc")}, ctx="r", suite=suite, mode=0)
+    for i in range(upto + 1):
+        form = "alloc" if (i + seed) % 2 else "detached"
+        pt, aad = s.fresh(i, "pt"), s.fresh(upto - i, "aad")
+        k = s.add("seal", {"pt": pt, "aad": aad}, ctx="s", form=form)
+        oform = "alloc" if (i // 2 + seed) % 2 else "detached"
+        if form == "alloc":
+            whole = E("out", k, "ct")
+            body, tag = E("take", whole, i), E("drop", whole, i)
+        else:
+            body, tag = E("out", k, "ct"), E("out", k, "tag")
+        if oform == "alloc":
+            s.add("open", {"ct": E("cat", body, tag), "aad": aad}, ctx="r", form=oform)
+        else:
+            s.add("open", {"ct": body, "tag": tag, "aad": aad}, ctx="r", form=oform)
+    return s
